@@ -723,6 +723,132 @@ def converse():
     return converse_c05.run()
 
 
+# ------------------------------------------------------------------ host-based authentication
+HB_HOSTS = {'hosta': 'ka', 'hostb': 'kb'}           # known_client_hosts: which key belongs to which client host
+HB_ALLOWED = {('alice', 'hostb', 'cu'), ('alice', 'peer.example', 'cu')}     # what the application accepts
+
+
+class HostBasedServer(P.RecServer):
+    def password_auth_supported(self):
+        return False
+
+    def host_based_auth_supported(self):
+        return True
+
+    def validate_host_based_user(self, username, client_host, client_username):
+        self.log.append(('validate_host_based_user', username, client_host, client_username))
+        return (username, client_host, client_username) in HB_ALLOWED
+
+
+def hb_request(rp, req):
+    """('hb', user, claimed host, credential, variant): credential = key name, or ('cert', subject key, principals)"""
+    import c16
+    _, user, claimed, cred, variant = req
+    if isinstance(cred, tuple):
+        blob = c16.build_cert(_AsKey('ca'), _AsKey(cred[1]), 2, list(cred[2]), 0, 2 ** 64 - 1)
+        alg, signer = 'ssh-ed25519-cert-v01@openssh.com', cred[1]
+    else:
+        blob, alg, signer = pubblob(cred), 'ssh-ed25519', cred
+    sid = rp.session_id if variant != 'wrong-sid' else bytes(len(rp.session_id))
+    body = R.string(alg) + R.string(blob) + R.string(claimed + '.') + R.string('cu')
+    signed = R.string(sid) + R.byte(R.MSG_USERAUTH_REQUEST) + R.string(user) + R.string('ssh-connection') + R.string('hostbased') + body
+    if variant == 'other-signer':
+        signer = 'kx'
+    sig = ckey(signer).sign(signed)
+    return rp.userauth_request(user, 'hostbased', body + R.string(R.string('ssh-ed25519') + R.string(sig)))
+
+
+def hb_admits(req, trust):
+    """the rule: the key (or a certificate of a trusted CA whose principals name that host) must be the one listed for
+    the host the request is judged as -- the name the client claims when the server trusts it, else the name its
+    address resolves to -- the signature must verify over this session, and the application must accept (user,
+    claimed host, client user)"""
+    _, user, claimed, cred, variant = req
+    judged = claimed if trust else 'peer.example'
+    if variant != 'ok':
+        return False
+    if isinstance(cred, tuple):
+        ok_key = judged in ('hosta', 'hostb', 'peer.example') and (not cred[2] or judged in cred[2])
+    else:
+        ok_key = HB_HOSTS.get(judged) == cred or (judged == 'peer.example' and cred == 'kp')
+    return ok_key and (user, claimed, 'cu') in HB_ALLOWED
+
+
+def hb_alphabet():
+    creds = ['ka', 'kb', 'kx', 'kp', ('cert', 'kx', ('hosta',)), ('cert', 'kx', ('hostb',)), ('cert', 'kx', ('peer.example',)), ('cert', 'kx', ())]
+    out = []
+    for claimed in ('hosta', 'hostb', 'peer.example'):
+        for cred in creds:
+            out.append(('hb', 'alice', claimed, cred, 'ok'))
+    out += [('hb', 'alice', 'hostb', 'kb', 'wrong-sid'), ('hb', 'alice', 'hostb', 'kb', 'other-signer'), ('hb', 'bob', 'hostb', 'kb', 'ok')]
+    return out
+
+
+def hb_run(trust, hist):
+    if 'kp' not in _keys:
+        _keys['kp'] = ed25519.Ed25519PrivateKey.from_private_bytes(b'\x06' * 32)
+    import base64
+    line = lambda names, k, marker='': '%s%s ssh-ed25519 %s\n' % (marker, names, base64.b64encode(pubblob(k)).decode())
+    known = line('hosta', 'ka') + line('hostb', 'kb') + line('peer.example', 'kp') + line('hosta,hostb,peer.example', 'ca', '@cert-authority ')
+    env = {'session_factory': lambda: P.RecSession('srv')}
+    w = H.SrvWorld(env=env, server_factory=HostBasedServer,
+                   sopts=dict(known_client_hosts=asyncssh.import_known_hosts(known), trust_client_host=trust, host_based_auth=True))
+    w.loop.resolver['peer.example'] = '127.0.0.1'       # what the client's address resolves to
+    rp = w.rp
+    viol, admitted_at = [], None
+    try:
+        w.kex()
+        rp.send(rp.service_request())
+        w.flush()
+        for i, req in enumerate(hist):
+            if w.server_closed() or w.conn._auth_complete:
+                break
+            rp.send(hb_request(rp, req))
+            w.flush()
+            if w.conn._auth_complete and admitted_at is None:
+                admitted_at = i
+        want_at = next((i for i, r in enumerate(hist) if hb_admits(r, trust)), None)
+        if admitted_at is not None and (want_at is None or admitted_at < want_at):
+            viol.append(('admitted-without-valid-credential', 'request %d %r was accepted (trust_client_host=%s); user=%r' % (
+                admitted_at, hist[admitted_at], trust, w.conn.get_extra_info('username'))))
+        elif want_at is not None and admitted_at != want_at and not w.server_closed():
+            viol.append(('valid-credential-refused', 'request %d %r should have been accepted (trust_client_host=%s), admitted at %r' % (
+                want_at, hist[want_at], trust, admitted_at)))
+        if admitted_at is not None and w.conn.get_extra_info('username') != hist[admitted_at][1]:
+            viol.append(('authenticated-as-other-user', repr(w.conn.get_extra_info('username'))))
+        if w.loop.unretrieved():
+            viol.append(('loop-exception', repr(w.loop.exc_log[0].get('exception'))[:200]))
+    except Livelock as exc:
+        viol.append(('livelock', str(exc)))
+    except R.RefError as exc:
+        viol.append(('refpeer-reject', str(exc)))
+    finally:
+        w.close()
+    return viol
+
+
+def hb_worker(job):
+    acc = core.Acc()
+    for trust, hist in job:
+        viol = hb_run(trust, hist)
+        acc.add(core.digest(('hb', trust, hist)), transitions=len(hist),
+                sample={'host_based': {'trust_client_host': trust, 'requests': [list(map(str, r[1:])) for r in hist]}} if len(hist) == 2 and hist[0][3] == 'ka' and hist[1][3] == 'ka' and trust and hist[1][2] == 'hostb' else None)
+        for k, d in viol:
+            acc.violation('auth:hostbased:%s:trust=%s:%s' % (k, trust, '+'.join('%s/%s' % (r[2], r[3] if isinstance(r[3], str) else 'cert-' + ','.join(r[3][2])) for r in hist)),
+                          d, {'kind': 'hostbased', 'trust': trust, 'hist': [list(r[:3]) + [list(r[3]) if isinstance(r[3], tuple) else r[3], r[4]] for r in hist]})
+    return acc
+
+
+def hb_jobs(tier):
+    al = hb_alphabet()
+    hists = [(a,) for a in al] + [(a, b) for a in al for b in al]
+    if tier == 'thorough':
+        sub = [a for a in al if a[4] == 'ok' and a[1] == 'alice' and a[3] in ('ka', 'kb', 'kx', ('cert', 'kx', ('hosta',)), ('cert', 'kx', ('hostb',)))]
+        hists += [(a, b, c) for a in sub for b in sub for c in sub]
+    cases = [(t, h) for t in (True, False) for h in hists]
+    return [cases[i::32] for i in range(32)]
+
+
 def main(tier, seed):
     t0 = core.now()
     bound = 3 if tier == 'quick' else 4
@@ -765,6 +891,7 @@ def main(tier, seed):
     acc.merge(converse())
     rc = restrict_cases(tier)
     acc.merge(core.pmap(restrict_worker, [rc[i::32] for i in range(32)]))
+    acc.merge(core.pmap(hb_worker, hb_jobs(tier)))
     rule = ('every history of USERAUTH requests (alphabet: none/password right|wrong|other-user/'
             'publickey probe/publickey signed good|wrong session id|other user in signed blob|'
             'other signer|wrong service/malformed/channel-open probe, users alice|bob) of length '
@@ -786,6 +913,14 @@ def main(tier, seed):
 
 def replay(rep):
     r = rep['replay']
+    if isinstance(r, dict) and r.get('kind') == 'hostbased':
+        hist = tuple((h[0], h[1], h[2], tuple([h[3][0], h[3][1], tuple(h[3][2])]) if isinstance(h[3], list) else h[3], h[4]) for h in r['hist'])
+        v = hb_run(r['trust'], hist)
+        print(json.dumps(v, indent=1, default=repr))
+        if v:
+            print('VIOLATION property=%s replay=(given)' % PROP)
+            return 1
+        return 0
     if r.get('kind') == 'matrix':
         import converse_c05
         acc = converse_c05.matrix_worker([tuple(r['case'])])
